@@ -425,6 +425,9 @@ def _abstract(st, cfg):
         st["b_valid"], cfg["lazy"]))
 
 
+simplifications = common.simplifications
+
+
 def nontrivial(brief: dict) -> bool:
     s = brief["stats"]
     return (s.get("refits", 0) + s.get("rot_fits", 0) + s.get("boot_fits", 0) + s.get("task_faults", 0)) > 0 \
